@@ -45,7 +45,7 @@ theorem ofTerm_ok : (g : GateTerm P) → gateOK g = true →
     cases hc : ofC g with
     | some q => simpa [Gate.nrBits] using ofC_ok g q hc
     | none =>
-      have ih := ofTerm_ok g (by simpa [gateOK] using h)
+      have ih := ofTerm_ok g (gateOK_of_isNamedC g (by simpa [gateOK] using h))
       simp only [qOK, nbits, Gate.nrBits, ih.2, and_self]
   | .Kron a b, h => by
     simp only [gateOK, Bool.and_eq_true] at h
